@@ -42,6 +42,7 @@ type fctx struct {
 	loopNo int
 	params []string // Lean binder list of the function (for loops: subset is recomputed)
 	closure bool    // translating a function literal: only the receiver is threaded
+	ifaceCb map[types.Object]map[string]string // interface parameter -> method -> Lean callback name
 }
 
 var leanReserved = map[string]bool{"end": true, "at": true, "from": true, "fun": true, "do": true, "then": true, "else": true,
@@ -173,6 +174,10 @@ func (c *fctx) zeroOf(t ltype) (string, error) {
 		return "[]", nil
 	case kError:
 		return "none", nil
+	case kStruct:
+		if sc, ok := c.g.structs[t.name]; ok && sc.zero != "" {
+			return sc.zero, nil
+		}
 	}
 	return "", fmt.Errorf("no zero value for %s", t.lean)
 }
@@ -220,6 +225,10 @@ func (c *fctx) expr(e ast.Expr) (lx, error) {
 			return lx{}, err
 		}
 		switch x.Op {
+		case token.AND:
+			if _, ok := stripParens(x.X).(*ast.CompositeLit); ok {
+				return a, nil // &T{…}: the pointer is modelled by the value held in a local variable
+			}
 		case token.NOT:
 			return lx{s: "(!" + a.s + ")", p: "¬ " + a.p, t: a.t}, nil
 		case token.SUB:
@@ -603,6 +612,30 @@ func (c *fctx) composite(x *ast.CompositeLit) (lx, error) {
 		return lx{}, fmt.Errorf("composite literal of %s not supported", t.lean)
 	}
 	sc := c.g.structs[t.name]
+	if len(sc.bufs) > 0 {
+		if len(x.Elts) == 0 {
+			return lx{s: "(⟨[], []⟩ : " + sc.lean + ")", t: ltype{k: kBuf, lean: sc.lean}}, nil
+		}
+		if len(x.Elts) == 1 {
+			if kv, ok := x.Elts[0].(*ast.KeyValueExpr); ok {
+				if se, ok := stripParens(kv.Value).(*ast.SliceExpr); ok && se.Low == nil && se.High != nil && !se.Slice3 {
+					if hv, ok := c.constIntVal(se.High); ok && hv.Sign() == 0 {
+						b, err := c.expr(se.X)
+						if err != nil {
+							return lx{}, err
+						}
+						if b.t.k == kList {
+							return lx{s: "(Pico.GoBuf.ofSliceZero " + b.s + ")", t: ltype{k: kBuf, lean: sc.lean}}, nil
+						}
+					}
+				}
+			}
+		}
+		return lx{}, fmt.Errorf("unsupported literal of a struct holding a written slice")
+	}
+	if len(x.Elts) == 0 && sc.zero != "" {
+		return lx{s: sc.zero, t: t}, nil
+	}
 	tv := c.info.Types[x]
 	st, ok := tv.Type.Underlying().(*types.Struct)
 	if !ok {
@@ -841,6 +874,12 @@ func (c *fctx) callExpr(x *ast.CallExpr) (lx, error) {
 		term := "(" + f.lean + " " + strings.Join(args, " ") + ")"
 		if rt.k == kBool {
 			return mkBoolV(term), nil
+		}
+		if sig.Recv() != nil && rt.k == kList {
+			// a getter of a written-slice field returns the written slice
+			if r, err := c.expr(x.Fun.(*ast.SelectorExpr).X); err == nil && r.t.k == kStruct && len(c.g.structs[r.t.name].bufs) > 0 {
+				return lx{s: term, t: ltype{k: kBuf, lean: c.g.structs[r.t.name].lean}}, nil
+			}
 		}
 		return lx{s: term, t: rt}, nil
 	}
